@@ -24,6 +24,15 @@ def run_property(prop, tier, repo, quiet=False):
     for a in getattr(mod, "ASSUMPTIONS", []):
         L.assume(a)
     mod.run(L, tier)
+    if tier == "thorough" and os.environ.get("VERIF_NO_SELFTEST") != "1":
+        # informational: the checker's own mutation self-test on scratch copies of the tree under analysis
+        # (a stale anchor on an already-edited tree must not turn the verdict into an error)
+        try:
+            import selftest
+            res = selftest.run_all([prop], repo=L.repo, jobs=int(os.environ.get("VERIF_JOBS", "16")), verbose=False)
+            L.extra["selftest"] = {k: v for k, v in res.items()}
+        except Exception as e:      # never let the informational part change the verdict
+            L.extra["selftest"] = {"error": str(e)[:200]}
     return L.finish()
 
 
